@@ -6,19 +6,8 @@ import (
 	verif "github.com/uber/kraken/zzverif"
 )
 
-// vmNoWrapCapacity restricts the capacity so that reserved+size cannot wrap for
-// sizes up to vmMaxSize. The unrestricted range is the subject of
-// VerifFindingCreateSizeWrap (see FINDINGS.md).
-func vmAssumeNoWrap(capacity uint64) {
-	verif.Assume(capacity <= 1<<62)
-	verif.Note("capacity <= 2^62 and every Create size <= 2^62 (reserved+size cannot wrap); the full range is checked by VerifFindingCreateSizeWrap")
-}
-
-func vmSize() uint64 {
-	s := verif.Uint64("size")
-	verif.Assume(s <= 1<<62)
-	return s
-}
+// vmSize: Create sizes are full-range symbolic uint64 values.
+func vmSize() uint64 { return verif.Uint64("size") }
 
 // vmBuildState brings the store, through its own API, into one of the
 // canonical states over the first nkeys keys: every key absent, incomplete,
@@ -68,10 +57,15 @@ var vmStructOps = []int{voCreate, voMarkComplete, voOpen, voStat, voHas, voDelet
 // symbolic size evicts exactly the model's victims in LRU order.
 func VerifDiskStepFromState() {
 	capacity := verif.Uint64("capacity")
-	vmAssumeNoWrap(capacity)
+	verif.Assume(capacity <= 1<<62)
+	verif.Note("VerifDiskStepFromState: capacity and sizes <= 2^62 — solver cost only (with full-range values the no-overflow side conditions of up to four summed sizes take the solver 40x longer and time out under load); full-range capacity and sizes are exercised by VerifDiskLRUHistory and VerifFindingCreateSizeWrap")
 	nkeys := verif.Bound("keys", 2, 3)
 	h := vmNew(capacity, nkeys, 0)
-	h.sizeFn = vmSize
+	h.sizeFn = func() uint64 {
+		s := verif.Uint64("size")
+		verif.Assume(s <= 1<<62)
+		return s
+	}
 	vmBuildState(h, nkeys)
 	steps := verif.Bound("steps", 1, 2)
 	for i := 0; i < steps; i++ {
@@ -126,7 +120,6 @@ func VerifDiskEvictionOrder() {
 // Create/Open/MarkComplete/Delete/Ban/Unban over two keys from the empty store.
 func VerifDiskLRUHistory() {
 	capacity := verif.Uint64("capacity")
-	vmAssumeNoWrap(capacity)
 	h := vmNew(capacity, 2, 0)
 	h.sizeFn = vmSize
 	steps := verif.Bound("steps", 2, 4)
@@ -166,9 +159,10 @@ func VerifDiskMetadataStep() {
 }
 
 // VerifFindingCreateSizeWrap: two Creates with full-range symbolic sizes under
-// a full-range symbolic capacity. See FINDINGS.md: the admission test
-// s.size+space <= s.capacity wraps around, so a huge size is admitted and the
-// reserved size ends up below the sum of live sizes.
+// a full-range symbolic capacity. See FINDINGS.md F1 (fixed in /repo by
+// eb9c4c0; kept as a regression check): the admission test
+// s.size+space <= s.capacity used to wrap around, so that a huge size was
+// admitted and the reserved size ended up below the sum of live sizes.
 func VerifFindingCreateSizeWrap() {
 	capacity := verif.Uint64("capacity")
 	h := vmNew(capacity, 2, 0)
